@@ -12,6 +12,18 @@
                             (functools.lru_cache / cache, jedi's own *cache* decorators).  No decorator:
                             false.  Props/C09 `stub_listing_fresh` is proved from `cfg.stubListingCached = false`,
                             so adding such a decorator breaks the build.
+  cfg.stampIsFsMtime        WHICH time the cache layers compare: every `get_last_modified` reachable from
+                            `_load_python_module` / `parse_stub_module` - the classes of jedi/file_io.py
+                            (FileIO, KnownContentFileIO, ZipFileIO; the helper's `_from_loader` and typeshed
+                            construct exactly these) and the parso classes they inherit from (as installed).
+                            Every implementation must be recognised as returning `os.path.getmtime(<path>)`
+                            (or the equal `os.stat(<path>).st_mtime`, `super().get_last_modified()`, `None`
+                            in an `except` branch): true.  A recognised whole-second reading
+                            (`os.stat(p)[stat.ST_MTIME]`, `os.stat(p)[8]`, `int(...)`, `... // 1`,
+                            `math.floor/trunc`, `round`, `st_mtime_ns // 10**9`): false - the model then
+                            truncates the stamp and `Props.C09.load_fresh_partial` (proved from
+                            `cfg.stampIsFsMtime = true` by `rfl`) no longer builds.  Anything else
+                            (a decorator, another path, arithmetic, a monkey-patched attribute): TieBroken.
 """
 import ast
 import importlib.util
@@ -58,11 +70,17 @@ def generate(repo, g):
         raise TieBroken('InferenceState.__init__: self.module_cache =', repr(mc))
     typeshed = Src(repo, 'jedi/inference/gradual/typeshed.py')
     listing_cached = _stub_listing_cached(typeshed)
+    fileio = Src(repo, 'jedi/file_io.py')
+    fns = Src(repo, 'jedi/inference/compiled/subprocess/functions.py')
+    stamp_full = _stamp_is_fs_mtime(fileio, fns, typeshed, inf)
     g.define('cfg', 'JediModel.DiskCache.Cfg',
-             '{ cache := %s, diff := %s, modCachePerScript := %s, stubListingCached := %s }' % (
-                 lean_bool(cache), lean_bool(diff), lean_bool(per_script), lean_bool(listing_cached)),
+             '{ cache := %s, diff := %s, modCachePerScript := %s, stubListingCached := %s, '
+             'stampIsFsMtime := %s }' % (
+                 lean_bool(cache), lean_bool(diff), lean_bool(per_script), lean_bool(listing_cached),
+                 lean_bool(stamp_full)),
              'imports._load_python_module, InferenceState.__init__, Script.__init__, settings.fast_parser, '
-             'typeshed._create_stub_map/_merge_create_stub_map decorators')
+             'typeshed._create_stub_map/_merge_create_stub_map decorators, get_last_modified of every class in '
+             'jedi/file_io.py and of parso/file_io.py (installed)')
     g.lines.insert(1, 'import JediModel.Model.DiskCache')
 
     # ---- the dependency: parso's revalidation predicates (as installed; not part of /repo)
@@ -92,9 +110,10 @@ def generate(repo, g):
     for d in ['_create_stub_map', '_merge_create_stub_map', '_load_from_typeshed', '_try_to_load_stub',
               '_try_to_load_stub_from_file', 'parse_stub_module', 'try_to_load_stub_cached']:
         g.fp(typeshed, d)
-    fns = Src(repo, 'jedi/inference/compiled/subprocess/functions.py')
     for d in ['get_module_info', '_find_module', '_find_module_py33', '_from_loader']:
         g.fp(fns, d)
+    for d in ['FileIO', 'KnownContentFileIO', 'ZipFileIO', 'FileIOFolderMixin', 'FolderIO', 'AbstractFolderIO']:
+        g.fp(fileio, d)
 
 
 _MEMO_WORDS = ('cache', 'memo')
@@ -132,3 +151,151 @@ def _stub_listing_cached(typeshed):
             if isinstance(n, ast.Global):
                 raise TieBroken('typeshed.%s: global statement (hand-written memo?)' % fn.name, u(n))
     return cached
+
+
+# ---------------------------------------------------------------- which time a FileIO reports
+
+_EXPECTED_BASES = {
+    'FileIO': ['file_io.FileIO', 'FileIOFolderMixin'],
+    'KnownContentFileIO': ['file_io.KnownContentFileIO', 'FileIOFolderMixin'],
+    'ZipFileIO': ['file_io.KnownContentFileIO', 'FileIOFolderMixin'],
+}
+_PATHS = {'ZipFileIO': ('self.path', 'self._zip_path')}
+_ERRS = {'FileNotFoundError', 'PermissionError', 'NotADirectoryError', 'OSError'}
+
+
+def _classify_stamp(expr, env, paths, where, depth=0):
+    """'full' (the file system's mtime as os.path.getmtime gives it), 'trunc' (whole seconds) or 'none'"""
+    if depth > 6:
+        raise TieBroken(where + ': stamp expression too deep', u(expr))
+    if isinstance(expr, ast.Name) and expr.id in env:
+        return _classify_stamp(env[expr.id], env, paths, where, depth + 1)
+    text = u(expr)
+
+    def is_path(e):
+        if isinstance(e, ast.Name) and e.id in env:
+            return is_path(env[e.id])
+        t = u(e)
+        return t in paths or t in ['str(%s)' % p for p in paths]
+
+    def is_stat(e):
+        if isinstance(e, ast.Name) and e.id in env:
+            return is_stat(env[e.id])
+        return (isinstance(e, ast.Call) and u(e.func) in ('os.stat', 'os.lstat') and len(e.args) == 1
+                and not e.keywords and is_path(e.args[0]))
+    if isinstance(expr, ast.Constant) and expr.value is None:
+        return 'none'
+    if text == 'super().get_last_modified()':
+        return 'full'                                  # the parso implementation, checked separately
+    if isinstance(expr, ast.Call) and u(expr.func) == 'os.path.getmtime' and len(expr.args) == 1 \
+            and not expr.keywords and is_path(expr.args[0]):
+        return 'full'
+    if isinstance(expr, ast.Attribute) and expr.attr == 'st_mtime' and is_stat(expr.value):
+        return 'full'
+    if isinstance(expr, ast.Subscript) and is_stat(expr.value) and u(expr.slice) in ('stat.ST_MTIME', 'ST_MTIME', '8'):
+        return 'trunc'                                 # the tuple interface of os.stat_result: int seconds
+    if isinstance(expr, ast.Call) and u(expr.func) in ('int', 'round', 'math.floor', 'math.trunc') \
+            and len(expr.args) == 1 and not expr.keywords:
+        if _classify_stamp(expr.args[0], env, paths, where, depth + 1) in ('full', 'trunc'):
+            return 'trunc'
+    if isinstance(expr, ast.BinOp) and isinstance(expr.op, ast.FloorDiv):
+        if u(expr.right) == '1' and _classify_stamp(expr.left, env, paths, where, depth + 1) in ('full', 'trunc'):
+            return 'trunc'
+        if isinstance(expr.left, ast.Attribute) and expr.left.attr == 'st_mtime_ns' and is_stat(expr.left.value) \
+                and u(expr.right) in ('10 ** 9', '1000000000'):
+            return 'trunc'
+    if isinstance(expr, ast.IfExp):
+        kinds = {_classify_stamp(e, env, paths, where, depth + 1) for e in (expr.body, expr.orelse)}
+        return 'trunc' if 'trunc' in kinds else 'full' if 'full' in kinds else 'none'
+    raise TieBroken(where + ': unrecognised time stamp expression', text)
+
+
+def _method_stamp(fn, paths, where):
+    """resolution of what one get_last_modified implementation returns"""
+    if fn.decorator_list:
+        raise TieBroken(where + ': decorated (memoised time stamp?)', u(fn.decorator_list[0]))
+    if [a.arg for a in fn.args.args] != ['self'] or fn.args.vararg or fn.args.kwarg or fn.args.kwonlyargs:
+        raise TieBroken(where + ': signature', u(fn.args))
+    env = {}
+    rets = []
+    for n in ast.walk(fn):
+        if isinstance(n, ast.Assign):
+            if len(n.targets) != 1 or not isinstance(n.targets[0], ast.Name) or n.targets[0].id in env:
+                raise TieBroken(where + ': assignment shape', u(n))
+            env[n.targets[0].id] = n.value
+        elif isinstance(n, ast.Return):
+            rets.append(n.value if n.value is not None else ast.Constant(None))
+        elif isinstance(n, ast.ExceptHandler):
+            names = [u(e) for e in (n.type.elts if isinstance(n.type, ast.Tuple) else [n.type])] if n.type else ['*']
+            if not set(names) <= _ERRS:
+                raise TieBroken(where + ': except clause', repr(names))
+        elif isinstance(n, (ast.AugAssign, ast.AnnAssign, ast.Global, ast.Nonlocal, ast.With, ast.For, ast.While,
+                            ast.Yield, ast.YieldFrom, ast.Lambda, ast.FunctionDef)) and n is not fn:
+            raise TieBroken(where + ': statement outside the modelled shape', u(n)[:200])
+    if not rets:
+        raise TieBroken(where + ': no return statement')
+    kinds = {_classify_stamp(r, env, paths, where) for r in rets}
+    if kinds == {'none'}:
+        raise TieBroken(where + ': never returns a time stamp (nothing is cached)')
+    return 'trunc' if 'trunc' in kinds else 'full'
+
+
+def _stamp_is_fs_mtime(fileio, fns, typeshed, inf):
+    # who builds the FileIO handed to the parser for imported modules / stubs / load_module_from_path
+    def imported_from_file_io(src, names):
+        got = set()
+        for n in src.tree.body:
+            if isinstance(n, ast.ImportFrom) and n.module == 'jedi.file_io' and n.level == 0:
+                got |= {a.name for a in n.names if a.asname is None}
+        if not set(names) <= got:
+            raise TieBroken('%s: %s not imported from jedi.file_io' % (src.rel, sorted(set(names) - got)))
+    imported_from_file_io(fns, ['KnownContentFileIO', 'ZipFileIO'])
+    imported_from_file_io(typeshed, ['FileIO'])
+    imported_from_file_io(inf, ['FileIO'])
+    fl = fns.find('_from_loader')
+    made = sorted({u(n.func) for n in ast.walk(fl) if isinstance(n, ast.Call) and u(n.func).endswith('FileIO')})
+    if made != ['KnownContentFileIO', 'ZipFileIO']:
+        raise TieBroken('functions._from_loader: FileIO classes constructed', repr(made))
+    if not any(isinstance(n, ast.ImportFrom) and n.module == 'parso' and [a.name for a in n.names] == ['file_io']
+               and n.names[0].asname is None for n in fileio.tree.body):
+        raise TieBroken('jedi/file_io.py: `from parso import file_io` missing')
+    # no patching of the method from outside a class body
+    for n in ast.walk(fileio.tree):
+        if isinstance(n, (ast.Assign, ast.AugAssign, ast.AnnAssign)):
+            for t in (n.targets if isinstance(n, ast.Assign) else [n.target]):
+                if 'get_last_modified' in u(t):
+                    raise TieBroken('jedi/file_io.py: get_last_modified assigned', u(n))
+        if isinstance(n, ast.Call) and u(n.func) == 'setattr':
+            raise TieBroken('jedi/file_io.py: setattr', u(n))
+    kinds = []
+    classes = {n.name: n for n in fileio.tree.body if isinstance(n, ast.ClassDef)}
+    for name, bases in _EXPECTED_BASES.items():
+        if name not in classes:
+            raise TieBroken('jedi/file_io.py: class %s missing' % name)
+        if [u(b) for b in classes[name].bases] != bases or classes[name].keywords or classes[name].decorator_list:
+            raise TieBroken('jedi/file_io.py: bases of %s' % name, repr([u(b) for b in classes[name].bases]))
+    for cls in [n for n in ast.walk(fileio.tree) if isinstance(n, ast.ClassDef)]:
+        for item in ast.walk(cls):
+            if isinstance(item, (ast.FunctionDef, ast.AsyncFunctionDef)) and item.name == 'get_last_modified':
+                if item not in cls.body or isinstance(item, ast.AsyncFunctionDef):
+                    raise TieBroken('jedi/file_io.py: %s.get_last_modified is not a plain method' % cls.name)
+                kinds.append(_method_stamp(item, _PATHS.get(cls.name, ('self.path',)),
+                                           'jedi/file_io.py:%s.get_last_modified' % cls.name))
+    for n in fileio.tree.body:
+        if isinstance(n, (ast.FunctionDef, ast.AsyncFunctionDef)) and n.name == 'get_last_modified':
+            raise TieBroken('jedi/file_io.py: module-level get_last_modified')
+    # the inherited implementation: parso as installed
+    spec = importlib.util.find_spec('parso')
+    if spec is None or not spec.origin:
+        raise TieBroken('parso not importable')
+    with open(os.path.join(os.path.dirname(spec.origin), 'file_io.py'), encoding='utf-8') as f:
+        ptree = ast.parse(f.read())
+    pclasses = {n.name: n for n in ptree.body if isinstance(n, ast.ClassDef)}
+    if set(pclasses) != {'FileIO', 'KnownContentFileIO'} or [u(b) for b in pclasses['KnownContentFileIO'].bases] != ['FileIO']:
+        raise TieBroken('parso/file_io.py: classes', repr(sorted(pclasses)))
+    pm = [(c.name, n) for c in pclasses.values() for n in c.body
+          if isinstance(n, ast.FunctionDef) and n.name == 'get_last_modified']
+    if [c for c, _ in pm] != ['FileIO']:
+        raise TieBroken('parso/file_io.py: get_last_modified defined in', repr([c for c, _ in pm]))
+    kinds.append(_method_stamp(pm[0][1], ('self.path',), 'parso/file_io.py:FileIO.get_last_modified'))
+    return 'trunc' not in kinds
